@@ -158,3 +158,11 @@ reg("C12", "sched", "model_checking",
     "2 receivers through recv_frame(), and a sender racing with the pong of a receiver: the wire carries whole frames in a serial order and every message is delivered intact to exactly one receiver.",
     "Trusted: scheduler (one thread runs at a time; scheduling points at every simulated lock/transport operation, optionally every line). Bounded by preemptions; no free-running race detector exists for Python.",
     "DESIGN.md section 6 C12")
+
+reg("C11", "explore", "exploration",
+    "exhaustive enumeration of the TLS configuration grid, each configuration executed as one real TLS handshake (real ssl module) over a socketpair against a server thread presenting one of four fixture certificates",
+    "cert_reqs x check_hostname x 7 trust sources (none, ca_certs, ca_cert_path, CA-bundle env file/dir, custom verifying / non-verifying context) x server_hostname x "
+    "4 server certificates (trusted/untrusted x matching/mismatching) x direct / HTTP-proxy tunnel: accept iff the reference decision says so, rejection before any "
+    "WebSocket byte reaches the server, the stream starts with a TLS ClientHello for wss and with GET for ws (no context created).",
+    "Trusted: OpenSSL's certificate verification; fixture certificates in fixtures/tls (100-year validity). Real OS threads/sockets are used: only accept/reject and bytes seen are compared, never timing.",
+    "DESIGN.md section 6 C11")
